@@ -210,6 +210,18 @@ def run_op_case(ctx, i):
             a1 = _np(kern.convolved_array_with_mask_from(array=aa.Array2D.no_mask(values=comb, pixel_scales=ps).native, mask=mask))
             ctx.check(ctx.close(a1, out1, TOL), "kernel2d.masked", which="agrees with Convolver on mask U blurring image", expected=out1, got=a1, **W)
 
+        # garbage far outside mask U blurring region, of huge magnitude or non-finite (NaN outside a detector footprint, saturated
+        # pixels): the values on the mask are exactly those of the clean image
+        outside = m & bm_ref
+        if outside.any():
+            for gname, gval in (("1e12", 1e12), ("nan", np.nan), ("inf", np.inf)):
+                gfull = full.copy()
+                gfull[outside] = gval
+                okg, outg = ctx.guarded("garbage", lambda: _np(kern.convolved_array_with_mask_from(array=aa.Array2D.no_mask(values=gfull, pixel_scales=ps).native, mask=mask)))
+                if okg:
+                    ctx.check(outg.shape == outw.shape and bool(np.all(np.abs(outg - outw) <= TOL * max(1.0, float(np.abs(outw).max())))), "garbage",
+                              which="Kernel2D.convolved_array_with_mask_from", garbage=gname, got=outg, expected=outw, **W)
+
     cls = ["kernel:%s" % kind, "mask:%s" % fam, "kshape:%dx%d" % k.shape]
     if k.shape[0] != k.shape[1]:
         cls.append("nonsquare_kernel")
